@@ -54,6 +54,12 @@ FOCUS = {
     # "must be over before the other may start" have to look at the deadline flag
     "soft-due": dict(n_tasks=(2, 4), p_variable=0.2, p_zero=0.05, p_optional=0.15, n_workers=(1, 2), p_cumulative=0.15, p_select=0.3,
                      p_assign=1.0, p_dynamic=0.05, p_delayed=0.05, p_work=0.0, p_release=0.6, p_due=0.7, p_deadline=0.25, p_horizon=0.9, slack=(0, 3)),
+    # many placeholders on two workers: optional tasks (unscheduled -> a point in the past), worker
+    # selections (unselected -> another point in the past) and rules that order the intervals of a worker
+    "crowded-placeholders": dict(n_tasks=(2, 5), p_optional=0.6, p_zero=0.1, p_variable=0.3, n_workers=(2, 2), p_cumulative=0.0, p_select=0.9,
+                                 p_assign=0.95, p_dynamic=0.1, p_delayed=0.1, p_work=0.1, p_release=0.15, p_due=0.15, p_horizon=0.85, slack=(0, 5),
+                                 constraints=["ResourceNonDelay", "ResourceTasksDistance", "ResourceUnavailable", "TaskPrecedence"], n_constraints=(1, 3),
+                                 indicators=["ResourceIdle"], n_indicators=(0, 1)),
 }
 
 TASK_CONSTRAINT_KINDS = ["TaskStartAt", "TaskStartAfter", "TaskEndAt", "TaskEndBefore", "TaskPrecedence", "TasksStartSynced",
